@@ -270,6 +270,7 @@ type treeGen struct {
 	simple bool // small readable values, valid shapes
 	ringNo int
 	sliver bool // rings are triangles a few ulps wide
+	short  bool // some rings have only 1..3 points and are not closed (invalid, but every codec carries them with NoValidate)
 }
 
 func (g *treeGen) val(zm bool) float64 {
@@ -322,6 +323,9 @@ func (g *treeGen) ring(ct geom.CoordinatesType) []interface{} {
 			return []interface{}{a, mk(ox+k*(math.Nextafter(ox, 2*ox)-ox), 0), mk(ox, k), a}
 		}
 		return []interface{}{a, mk(ox+k, 0), mk(ox, k), a}
+	}
+	if g.short && g.r.Intn(5) == 0 {
+		return g.pts(ct, 1, 3)
 	}
 	r := g.pts(ct, 3, 5)
 	return append(r, r[0])
